@@ -60,3 +60,7 @@ add('C06', 'exploration', 'exhaustive permutation enumeration for small fragment
     'All arrival permutations (with a duplicate at every position) of enumerated fragmentations and generated larger ones (uneven, overlapping, nested, interleaved with a look-alike bundle, fragments from the independent encoder or from the repository own fragmentation) are delivered to a real agent; application deliveries are compared with an interval-coverage model after every arrival.',
     'Fragments of one bundle are cut from one payload and agree on the total length.',
     'DESIGN.md section 3 C06')
+add('C03', 'fault_enumeration', 'differential testing against an independent COSE/AAD implementation under enumerated field-level alterations and exhaustive single-bit flips; property-based variation of bundles, scopes and algorithms',
+    'Bundles signed by a real source agent (COSE_Mac0 through its transmit chain) or by an independent reference source (scopes and parameters the repository never emits) are altered field by field and bit by bit; a fresh real receiver must deliver exactly when the independent verifier (validated against the upstream interop vectors) still verifies, and otherwise record a deletion with a security reason.',
+    'COSE_Mac0 with HMAC-256/384/512 only (installed pycose cannot build wrapped-key MACs; Sign1 path needs wall-clock certificate validation); bit flips judged one-directionally.',
+    'DESIGN.md section 3 C03')
